@@ -1,4 +1,5 @@
-HOOK_COMMITS = ["a97bcdc"]
+import subprocess as _sp
+HOOK_COMMITS = _sp.run("git -C /repo log --reverse --format=%h --grep='^verif hooks'", shell=True, capture_output=True, text=True).stdout.split()
 NOTES = ("Technique family: machine-checked proof in Lean 4. Every claimed property has theorems over a hand-written Lean model "
          "(lean/SsqlVerif/Props/Cxx.lean) and a differential correspondence check tying the model to /repo's working tree. "
          "See DESIGN.md; known-findings.txt lists fixed defects and recorded findings.")
